@@ -601,13 +601,16 @@ Definition kstatus (x : tid) (th : kthread) : option wstatus :=
   | KZombie c => Some (WExited x c)
   end.
 
-Fixpoint first_reportable (l : list (tid * kthread)) (target : option tid) : option (tid * wstatus) :=
-  match l with
+Fixpoint first_reportable (k : kernel) (keys : list tid) (target : option tid) : option (tid * wstatus) :=
+  match keys with
   | [] => None
-  | (x, th) :: r =>
+  | x :: r =>
       if match target with Some y => x =? y | None => true end then
-        match kstatus x th with Some s => Some (x, s) | None => first_reportable r target end
-      else first_reportable r target
+        match kget k x with
+        | Some th => match kstatus x th with Some s => Some (x, s) | None => first_reportable k r target end
+        | None => first_reportable k r target
+        end
+      else first_reportable k r target
   end.
 
 (* a status is consumed: the stop becomes "reported"; a reported exit is reaped *)
@@ -651,7 +654,7 @@ Fixpoint kwait (fuel : nat) (k : kernel) (sch : list choice) (target : option ti
                                         | None => match k_threads k with [] => false | _ => true end end in
   if negb exists_target then Err 10 else
   let normal (sch : list choice) :=
-    match first_reportable (k_threads k) target with
+    match first_reportable k (map fst (k_threads k)) target with
     | Some (x, s) => Ok (s, (kconsume k x, sch))
     | None =>
         match sch with
@@ -661,7 +664,7 @@ Fixpoint kwait (fuel : nat) (k : kernel) (sch : list choice) (target : option ti
     end in
   match sch, target with
   | CPick x :: sch', None =>
-      match first_reportable (k_threads k) (Some x) with
+      match first_reportable k (map fst (k_threads k)) (Some x) with
       | Some (_, s) => Ok (s, (kconsume k x, sch'))
       | None => kwait fuel' k sch' target
       end
